@@ -1,4 +1,5 @@
-from sock_common import SOCK_ASSUMPTIONS
+import sock_common
+from sock_common import SOCK_ASSUMPTIONS, sq, open_ids
 import C18_sock
 
 FUNCS = C18_sock.FUNCS + ["p_sys_close"]
@@ -17,4 +18,17 @@ MANIFEST = {
 
 
 def queries(tier):
-    return C18_sock.scripts("sock_fdledger_sysfail2", "harness/C20_sock.c", 2)
+    sock_common.TIER = tier
+    qs = C18_sock.scripts("sock_fdledger_sysfail2", "harness/C20_sock.c", 2)
+    # close() interrupted (Linux: descriptor released, -1/EINTR): every descriptor still closed exactly once
+    kfid = "C20_close_eintr_reclose"
+    kfdef = ["KF_OPEN_" + kfid] if kfid in open_ids() else []
+    for st, fam, nm in ((1, "AF_INET", "stream_v4"), (0, "AF_INET6", "dgram_v6")):
+        qs.append(sq("sock_fdledger_close_eintr_%s" % nm, "harness/C20_sock.c",
+                     defs=["SCRIPT=4", "STREAM=%d" % st, "FAMILY=" + fam, "SYSFAIL=1", "KMAX=6"] + kfdef, faults=0, errrec=False, funcs=FUNCS,
+                     bounds={"interrupted_close_per_library_call": 1, "failing_allocation_index": "0..6", "failing_syscalls": 1}))
+    qs.append(sq("sock_fdledger_close_eintr_kf_demo", "harness/C20_sock.c",
+                 defs=["SCRIPT=4", "STREAM=1", "FAMILY=AF_INET", "SYSFAIL=0", "KMAX=6", "KF_DEMO"], faults=0, errrec=False, funcs=FUNCS, kf=kfid,
+                 kf_match=r"descriptor closed twice|no close\(\) on a descriptor that is not open",
+                 bounds={"interrupted_close_per_library_call": 1}))
+    return qs
